@@ -66,6 +66,11 @@ fn core(prop: &str, tier: u8) -> &'static Vec<SProg> {
             v.extend(enumerate(2, 2, &*pk, &well_formed));
             let lk = alphabet_for("C07");
             v.extend(enumerate(2, 2, &*lk, &well_formed));
+            // a try_lock that fails first and succeeds once the holder - which waits inside its critical section for the
+            // try-locker's message / for a third thread - has released
+            v.push(sp(vec![vec![Lock(0), Recv, Unlock(0), Join(1)], vec![Send(11), TryLock(0), Unlock(0)]]));
+            v.push(sp(vec![vec![Lock(0), Join(2), Unlock(0), Join(1)], vec![ALoad(0), TryLock(0), Unlock(0)], vec![AStore(0, 1)]]));
+            v.push(sp(vec![vec![Lock(0), Park, Unlock(0), Join(1)], vec![Unpark(0), TryLock(0), Unlock(0)]]));
             // two readers that overlap (in different threads) and a third thread with two write-side operations:
             // a reader that joins another reader is still an access a later writer depends on
             use SOp::*;
@@ -162,6 +167,12 @@ pub fn pinned(prop: &str) -> Vec<SProg> {
             v.push(sp(vec![vec![TryLock(0), SkipUnlessLast(0, 1), Park, Unlock(0)], vec![Lock(0), Unlock(0)]]));
             v.push(sp(vec![vec![Lock(0), Unlock(0), Join(1)], vec![TryLock(0), SkipUnlessLast(0, 1), Park, Unlock(0)]]));
             v.push(sp(vec![vec![TryWrite, SkipUnlessLast(0, 1), Recv, RwUnlock], vec![Read, RwUnlock]]));
+            // what the notifier wrote after its unlock and before the notification is visible to the waiter it wakes (the
+            // waiter is known to be waiting: it raised its flag under the mutex, the notifier passed through the mutex)
+            for note in [NotifyOne, NotifyAll] {
+                v.push(sp(vec![vec![AwaitA(0, 1), Lock(0), Unlock(0), CellW(0), note, Join(1)], vec![Lock(0), AStore(0, 1), CvWait, Unlock(0), CellR(0)]]));
+                v.push(sp(vec![vec![AwaitA(0, 1), Lock(0), Unlock(0), CellW(0), note, Join(1)], vec![Lock(0), AStore(0, 1), CvWait, CellW(0), Unlock(0)]]));
+            }
             // the textbook predicate loop (`while counter < n { wait }`): such programs can always make progress, whoever
             // notifies, under the lock or after releasing it, in one round or two
             let round_unlocked = |note: SOp| vec![Lock(0), Incr(0), Unlock(0), note];
